@@ -17,7 +17,13 @@ def _safe(fa):
         from ..common import REPO
         tb = traceback.extract_tb(ex.__traceback__)
         root = os.path.realpath(os.path.join(REPO, 'onsager')) + os.sep
-        inner = tb[-1] if tb else None
+        # innermost frame that belongs to the repository or to this harness (library frames of numpy / scipy / h5py in between are skipped)
+        vroot = os.path.realpath(os.path.join(os.path.dirname(os.path.abspath(__file__)), '..', '..')) + os.sep
+        inner = None
+        for fr in reversed(tb):
+            fn_ = os.path.realpath(fr.filename)
+            if fn_.startswith(root) or fn_.startswith(vroot):
+                inner = fr; break
         lbl = '/'.join(str(x) for x in a[:2])[:80] if isinstance(a, tuple) else str(a)[:80]
         if inner is not None and os.path.realpath(inner.filename).startswith(root):
             where = '%s:%d in %s' % (os.path.relpath(os.path.realpath(inner.filename), os.path.realpath(REPO)), inner.lineno, inner.name)
